@@ -136,7 +136,7 @@ PROPS = {
   'quick': {'cases': 6400, 'max_size': 300, 'wall_s': 900},
   'thorough': {'cases': 128000, 'max_size': 400, 'wall_s': 3000},
   'sim': ['simsock', 'fakecurl', 'simclock'],
-  'essential_classes': ['dev:honest', 'dev:foreign-id', 'dev:other-hash', 'dev:status', 'dev:error-pdu', 'dev:error-pdu-status0', 'dev:bad-mac', 'dev:no-mac', 'dev:inconsistent-chains', 'dev:other-pdu-version', 'outcome:success', 'outcome:error',
+  'essential_classes': ['reply:chains-not-lowest-first', 'dev:honest', 'dev:foreign-id', 'dev:other-hash', 'dev:status', 'dev:error-pdu', 'dev:error-pdu-status0', 'dev:bad-mac', 'dev:no-mac', 'dev:inconsistent-chains', 'dev:other-pdu-version', 'outcome:success', 'outcome:error',
                         'api:async', 'api:signAggregated', 'transport:http', 'transport:tcp', 'pdu:v1', 'pdu:v2', 'untrusted-algorithm'],
   'assumptions': ['simulated sockets / libcurl behave as documented'],
  }, 'C06': {
@@ -222,7 +222,7 @@ PROPS = {
   'quick': {'cases': 6400, 'max_size': 150, 'exhaustive': True, 'wall_s': 1200},
   'thorough': {'cases': 32000, 'max_size': 200, 'exhaustive': True, 'wall_s': 3400},
   'sim': ['simsock', 'fakecurl', 'simclock'],
-  'essential_classes': ['single:response', 'single:all-failed', 'error-notice-seen', 'two-requests:cache-full-on-one-endpoint', 'config:extending', 'config:signing', 'config:with-out-of-range-value', 'endpoints:3'],
+  'essential_classes': ['history:earlier-request-dropped-in-flight', 'single:response', 'single:all-failed', 'error-notice-seen', 'two-requests:cache-full-on-one-endpoint', 'config:extending', 'config:signing', 'config:with-out-of-range-value', 'endpoints:3'],
   'assumptions': ['simulated socket semantics as documented in sim/simnet.hpp'],
  }, 'C11': {
   'technique': 'stateful property testing (rapidcheck histories) with byte-equality invariants and a differential against fresh contexts',
@@ -234,7 +234,7 @@ PROPS = {
   'quick': {'cases': 3200, 'max_size': 300, 'wall_s': 900},
   'thorough': {'cases': 64000, 'max_size': 400, 'wall_s': 3000, 'fuzz': {'runs': 40000, 'max_len': 1500, 'jobs': 16}},
   'sim': ['simsock', 'fakecurl', 'simclock'],
-  'essential_classes': ['pool:consistent', 'pool:inconsistent', 'pool:legacy', 'history:verifies-with-different-outcomes', 'history:with-derive-operation', 'derive:extended', 'derive:root-level', 'derive:prepended', 'both-cache-configurations'],
+  'essential_classes': ['shared-verification-context', 'pool:unknown-extension-elements', 'pool:consistent', 'pool:inconsistent', 'pool:legacy', 'history:verifies-with-different-outcomes', 'history:with-derive-operation', 'derive:extended', 'derive:root-level', 'derive:prepended', 'both-cache-configurations'],
   'assumptions': ['reference extender is stateless, so fresh-context verifications see the same server behaviour'],
  },
  'C10': {
@@ -251,7 +251,7 @@ PROPS = {
           'examined at least 3 elements; distinct = distinct (kind, origin, mutation list with tree paths, reference verdict and violated rules).',
   'quick': {'cases': 48000, 'max_size': 400, 'exhaustive': True, 'wall_s': 900},
   'thorough': {'cases': 800000, 'max_size': 600, 'exhaustive': True, 'wall_s': 3400, 'fuzz': {'runs': 300000, 'max_len': 1200, 'jobs': 16}},
-  'essential_classes': ['agree:accept', 'agree:reject', 'kind:signature', 'kind:aggr-pdu-v1', 'kind:aggr-req-pdu-v2', 'kind:aggr-resp-pdu-v2', 'kind:ext-pdu-v1', 'kind:ext-req-pdu-v2', 'kind:ext-resp-pdu-v2', 'kind:pubfile',
+  'essential_classes': ['mut:misplace-with-N-flag', 'mut:add-valid-field', 'agree:accept', 'agree:reject', 'kind:signature', 'kind:aggr-pdu-v1', 'kind:aggr-req-pdu-v2', 'kind:aggr-resp-pdu-v2', 'kind:ext-pdu-v1', 'kind:ext-req-pdu-v2', 'kind:ext-resp-pdu-v2', 'kind:pubfile',
                         'fields:compared-with-model', 'metamorphic:unknown-nc-vs-base', 'metamorphic:verdict-compared', 'unknown-nc:inside-hashed-content',
                         'rule-violated:int-not-minimal', 'rule-violated:mutually-exclusive-elements-combined', 'rule-violated:unknown-critical-element', 'rule-violated:single-valued-element-repeated',
                         'rule-violated:mandatory-element-missing', 'rule-violated:at-least-one-group-empty', 'rule-violated:not-first', 'rule-violated:after-last-element', 'rule-violated:section-out-of-order',
@@ -295,7 +295,7 @@ PROPS = {
   'quick': {'cases': 32000, 'max_size': 300, 'exhaustive': False, 'wall_s': 900},
   'thorough': {'cases': 600000, 'max_size': 400, 'exhaustive': False, 'wall_s': 3400},
   'sim': ['simsock', 'fakecurl', 'simclock'],
-  'essential_classes': ['policy:user-publication', 'policy:publications-file', 'policy:key', 'policy:calendar', 'policy:general', 'bound:reported-OK', 'observed:OK', 'observed:FAIL', 'observed:NA',
+  'essential_classes': ['extender:aggr-time-omitted', 'policy:user-publication', 'policy:publications-file', 'policy:key', 'policy:calendar', 'policy:general', 'bound:reported-OK', 'observed:OK', 'observed:FAIL', 'observed:NA',
                         'expect:FAIL:extension-contradicts', 'expect:FAIL:calendar-contradicts', 'expect:FAIL:same-time-other-hash', 'expect:FAIL:file-has-other-hash-for-that-time', 'expect:FAIL:certificate-not-valid-at-aggregation-time,',
                         'expect:FAIL:pki-signature-invalid,', 'expect:inconclusive:extension-failed', 'expect:inconclusive:extending-forbidden', 'expect:inconclusive:publications-file-unavailable',
                         'expect:inconclusive:certificate-not-listed', 'expect:never-ok(internal)', 'extender-contacted', 'publications-file-downloaded', 'extender:error-status-with-chain'],
